@@ -213,10 +213,10 @@ func patBytes(seed uint32, n int) []byte {
 }
 
 type bigHash struct {
-	pairBytes []byte   // serialized pairs (after the length prefix)
-	lenPrefix []byte   // serialized pair count
-	n         int      // pair count
-	ends      []int    // cumulative end offset (within pairBytes) of each pair
+	pairBytes []byte // serialized pairs (after the length prefix)
+	lenPrefix []byte // serialized pair count
+	n         int    // pair count
+	ends      []int  // cumulative end offset (within pairBytes) of each pair
 	file      *gen.File
 	keyIndex  int
 	fields    [][]byte
@@ -237,7 +237,7 @@ func drawBigHashFile(t *rapid.T) *bigHash {
 	case "three":
 		target = 2*chunkLimit + rapid.IntRange(2<<20, 4<<20).Draw(t, "extra")
 	case "random":
-		target = chunkLimit + rapid.IntRange(-(1 << 20), 6<<20).Draw(t, "extra")
+		target = chunkLimit + rapid.IntRange(-(1<<20), 6<<20).Draw(t, "extra")
 	}
 	sum := 0
 	for sum+unit < target-64 {
